@@ -66,6 +66,31 @@ def load_tables(version, root=None):
     return _TABLE_CACHE[key]
 
 
+def load_tables_local(version, centre, subcentre, local_version, root=None):
+    """WMO tables of `version` overlaid with the local tables <centre>_<subcentre>/<local_version>
+    (or <centre>_0/<local_version>) when that directory exists; local entries win."""
+    b, d = load_tables(version, root)
+    if not local_version:
+        return b, d
+    root = root or TABLES_ROOT
+    for cs in ('%d_%d' % (centre, subcentre), '%d_0' % centre):
+        base = os.path.join(root, '0', cs, str(local_version))
+        if os.path.isdir(base):
+            key = (root, version, cs, local_version)
+            if key not in _TABLE_CACHE:
+                with open(os.path.join(base, 'TableB.json')) as f:
+                    rb = json.load(f)
+                with open(os.path.join(base, 'TableD.json')) as f:
+                    rd = json.load(f)
+                b2 = dict(b)
+                b2.update((int(k), (v[0], v[1], v[2], v[3], v[4])) for k, v in rb.items())
+                d2 = dict(d)
+                d2.update((int(k), [int(x) for x in v[1]]) for k, v in rd.items())
+                _TABLE_CACHE[key] = (b2, d2)
+            return _TABLE_CACHE[key]
+    return b, d
+
+
 _ALL_DEFINED = []
 
 
@@ -260,7 +285,8 @@ def write_message(spec, tables=None):
     """
     ed = spec['edition']
     if tables is None:
-        b, d = load_tables(spec['version'])
+        b, d = load_tables_local(spec['version'], spec.get('centre', 0), spec.get('subcentre', 0),
+                                 spec.get('local_version', 0))
     else:
         b, d = tables
     if spec.get('extra_b'):
